@@ -46,7 +46,11 @@ void a_buf_dtor(void *ctx, void (*dtor)(void *))
 a_buf *a_buf_setm(a_buf *ctx, a_size mem)
 {
     ctx = (a_buf *)a_alloc(ctx, sizeof(a_buf) + ctx->siz_ * mem);
-    if (ctx) { ctx->mem_ = mem; }
+    if (ctx)
+    {
+        ctx->mem_ = mem;
+        if (ctx->num_ > mem) { ctx->num_ = mem; }
+    }
     return ctx;
 }
 
